@@ -161,6 +161,20 @@ def run(ctx):
     ph = [st for st in walk_no_nested(pis) if isinstance(st, ast.Assign) and '"?"' in norm(st.value).replace("'", '"')]
     ok = bool(ph) and "len(field_names)" in norm(ph[0].value)
     ctx.check(ok, "R18.1", "prepare_insert_sql:placeholders", "the number of ? placeholders does not derive from the column tuple", pis, "'?' * len(field_names)")
+    # the statement executed for a record is prepared from THAT record's table name and slots (not handed in, not remembered per table name)
+    icfg8 = CFG(ins)
+    recp = func_params(ins)[1] if len(func_params(ins)) > 1 else "record"
+    if ex and ex[0].args:
+        sarg = ex[0].args[0]
+        srcs = [sarg]
+        if isinstance(sarg, ast.Name):
+            rd8 = icfg8.reaching_defs(sarg.id).get(icfg8.node_of(ex[0]).id, set())
+            srcs = [icfg8.nodes[i].ast.value if isinstance(icfg8.nodes[i].ast, ast.Assign) else None for i in rd8]
+        good8 = bool(srcs) and all(isinstance(v, ast.Call) and norm(v.func) == "prepare_insert_sql" and len(v.args) == 2 and recp in {x.id for x in ast.walk(v.args[0]) if isinstance(x, ast.Name)}
+                                   and recp in {x.id for x in ast.walk(v.args[1]) if isinstance(x, ast.Name)} for v in srcs)
+        ctx.check(good8, "R18.1", "db_insert_record:statement-of-this-record", "the INSERT statement is not (only) prepare_insert_sql(<this record's table>, <this record's slots>): a statement "
+                  "prepared for another version of the type (same table name, other fields) binds values to the wrong columns or fails", ex[0],
+                  "sql = prepare_insert_sql(record._desc.name, record.__slots__)", key="R18.1:db_insert_record:statement-provenance")
     ial = single_assign_aliases(ins)
     rec = func_params(ins)[1] if len(func_params(ins)) > 1 else "record"
     pcall = next((c for c in calls_in(ins) if norm(c.func) == "prepare_insert_sql"), None)
